@@ -321,9 +321,14 @@ func drawRequest(w *simrt.Tape) (*request, string) {
 	if w.Bool(10) {
 		req.Inputs = append(req.Inputs, reqInput{"notAnInput", []float64{1, 2}})
 	}
-	if w.Bool(10) {
-		for _, s := range desc.States {
-			req.States = append(req.States, reqValue{s, 0})
+	if w.Bool(25) {
+		// a States list (complete, or one entry short) with non-zero values: the runner
+		// initialises the states itself, the list must not change the run
+		for i, s := range desc.States {
+			if i == len(desc.States)-1 && w.Bool(30) {
+				break
+			}
+			req.States = append(req.States, reqValue{s, float64(1 + w.Choose(40))})
 		}
 	}
 	return req, tag
